@@ -23,7 +23,7 @@ ASSUMPTIONS = [
     "enumerated guides: the estimator must equal the exact gradient of the closed-form objective (a finite sum)",
     "objectives: ELBO = E_q[log p(x,obs) - log q(x)]; IWELBO_N = E[log (1/N) sum_i p(x_i,obs)/q(x_i)]; PWake = E_{x~posterior approx}[log p(x,obs; theta)]; QWake = E_{x~posterior approx}[log q(x; phi)]; the estimators return gradients of the NEGATED objectives (losses)",
 ]
-OUTSIDE = ["REINFORCE guides (unbiasedness of the score-function estimator is covered under C29)", "N > 2", "non-Gaussian continuous guides"]
+OUTSIDE = ["exact unbiasedness of continuous REINFORCE guides (the estimator is checked against the score-function formula; finite-support unbiasedness is decided exactly under C29)", "N > 2", "non-Gaussian continuous guides"]
 
 KEY = jax.random.key(0)
 F = lambda v: jnp.asarray(v, jnp.float32)  # noqa: E731
@@ -167,6 +167,47 @@ def obligations(tier, seed):
     obs.append(Ob("C30/ELBO/two-site-guide/independent-noise", elbo2, (KEY, (F(0.4), F(0.8), F(0.5)), F(1.3)), assume=dom, mode="exact", timeout_s=60,
                   custom=with_distinct_draw_keys(("normal",), 2), replay=replay_keys,
                   note="the two sites' noise draws use distinct PRNG keys (independent draws): otherwise the expectation of the estimator is the gradient of a different objective"))
+
+    # ---------------- ELBO with a score-function (REINFORCE) guide and a learnable MODEL parameter: the estimator must be the
+    # score-function formula  grad loss(x) + loss(x) * grad log q(x)  at the sampled x (sampler stubbed: randomness = environment)
+    from genjax._src.adev.primitives import REINFORCE
+    from genjax._src.adev import primitives as adev_prims
+
+    @genjax.gen
+    def tmodel(a, s, th):
+        mu = genjax.normal(th, 3.0) @ "mu"
+        _ = genjax.normal(mu, 0.5) @ "v"
+
+    def reinforce_elbo(key, th2, o, x):
+        base = adev_prims.normal_reinforce
+        stub = genjax.vi.adev_distribution(REINFORCE(lambda k, loc, scale: x, base.differentiable_logpdf), lambda v, loc, scale: tfd.Normal(loc, scale).log_prob(v), "normal_reinforce_stub")
+
+        @genjax.marginal()
+        @genjax.gen
+        def rguide(target):
+            a, th = target.args
+            _ = stub(a, 0.8) @ "mu"
+
+        @genjax.gen
+        def tmodel2(a, th):
+            mu = genjax.normal(th, 3.0) @ "mu"
+            _ = genjax.normal(mu, 0.5) @ "v"
+
+        g = genjax.vi.ELBO(rguide, lambda a, th: Target(tmodel2, (a, th), C["v"].set(o)))(key, th2)
+
+        def loss(t2):
+            a, th = t2
+            return -(lpn(x, th, 3.0) + lpn(o, x, 0.5) - lpn(x, a, 0.8))
+
+        def lq(t2):
+            return lpn(x, t2[0], 0.8)
+
+        gl = jax.grad(loss)(th2)
+        gq = jax.grad(lq)(th2)
+        return g, jax.tree_util.tree_map(lambda u, w: u + loss(th2) * w, gl, gq)
+
+    obs.append(Ob("C30/ELBO/normal-reinforce+model-parameter", reinforce_elbo, (KEY, (F(0.4), F(0.2)), F(1.3), F(0.6)), mode="exact", timeout_s=60,
+                  note="score-function guide (scale fixed at 0.8 so that the identity is polynomial) and a model parameter theta: estimate == grad loss(x) + loss(x) * grad log q(x) at the sampled x, for all (a, theta), obs, x (unbiasedness of that formula is the trusted REINFORCE lemma)"))
 
     # ---------------- IWELBO
     for N in (1, 2):
